@@ -206,6 +206,22 @@ def run(ctx):
         if got != base[i]:
             ctx.violation("result-depends-on-history", "a result changes after a history of earlier API calls", {"history_seed": hist_seed, "probe": s},
                           base[i][:200], got[:200], replay={"kind": "history", "seed": hist_seed, "ver": v, "s": s})
+    # rare arithmetic paths (clamps, f(Impact)=0, caps) must be silent too
+    quiet_out, quiet_err = io.StringIO(), io.StringIO()
+    rare = [("2", s) for s in core.v2_low_family()] + [("3", s) for s in core.singletons("3", rng, 40)] + \
+           [("4", s) for s in core.singletons("4", rng, 40)]
+    with warnings.catch_warnings(record=True) as caught, contextlib.redirect_stdout(quiet_out), contextlib.redirect_stderr(quiet_err):
+        warnings.simplefilter("always")
+        for v, s in rare:
+            o, _ = obs.construct(v, s)
+            ctx.count()
+            if o is not None:
+                o.scores(), o.severities(), o.clean_vector(), o.rh_vector(), o.as_json(minimal=True)
+            if quiet_out.getvalue() or quiet_err.getvalue() or caught:
+                ctx.violation("writes-to-stdout-or-stderr", "a library call outside the CLI / interactive entry points writes to stdout/stderr or issues a warning",
+                              s, "", (quiet_out.getvalue() + quiet_err.getvalue() + "".join(str(w.message) for w in caught))[:200],
+                              replay={"kind": "quiet", "ver": v, "s": s})
+                break
     snap1 = snapshot()
     for k in snap0:
         if snap0[k] != snap1.get(k):
@@ -291,6 +307,14 @@ def replay(data):
         got = probe_out(r["ver"], r["s"]) if "s" in r else None
         ok = base == got and ("cli" in kinds or not out.getvalue())
         return ok, "history seed %d: probe before %r after %r, captured output %r" % (r["seed"], base, got, out.getvalue()[:100])
+    if r["kind"] == "quiet":
+        out = io.StringIO()
+        with warnings.catch_warnings(record=True) as caught, contextlib.redirect_stdout(out), contextlib.redirect_stderr(out):
+            warnings.simplefilter("always")
+            o, _ = obs.construct(r["ver"], r["s"])
+            if o is not None:
+                o.scores(), o.severities(), o.clean_vector(), o.rh_vector(), o.as_json(minimal=True)
+        return not (out.getvalue() or caught), "CVSS%s(%r): captured output %r, warnings %r" % (r["ver"], r["s"], out.getvalue()[:200], [str(w.message) for w in caught])
     if r["kind"] == "globals":
         s0 = snapshot()
         hr = __import__("random").Random(1)
